@@ -46,7 +46,7 @@ func genC13(t *rapid.T) c13Case {
 	c.Stack.Limit = 1
 	c.Stack.Strategy = rapid.SampledFrom([]string{"simple", "precise"}).Draw(t, "strategy")
 	c.Stack.Backlog = 3
-	durs := []int64{1, 7, 1000, 1_000_000, 50_000_000, 1_000_000_000, 10_000_000_000}
+	durs := []int64{1, 7, 1000, 1_000_000, 50_000_000, 1_000_000_000, 10_000_000_000, 45_000_000_000, 3_600_000_000_000} // up to an hour: waits that outlast any internal slice of time a limiter may cut them into
 	c.ArriveNs = rapid.SampledFrom([]int64{0, 1, 5, 3_000_000, 40_000_000}).Draw(t, "arrive")
 	var bound int64 = -1 // relative to arrival
 	switch c.Stack.Kind {
